@@ -171,6 +171,22 @@ impl DSpec {
                 b.set_font(0, f);
             }
             1 => b.set_font(1, synth_font("one", 16, 3)),
+            4 => {
+                // no font in slot 0: the only font sits in slot 5 (every cell is moved to that page after the layers are built)
+                b.clear_font_table();
+                b.set_font(5, synth_font("five only", 16, 9));
+            }
+            5 => {
+                // the font in slot 0 declares a width of 9 pixels (PSF2 header; one byte per glyph row as the loader reads it)
+                let mut d: Vec<u8> = Vec::new();
+                for x in [0x864a_b572u32, 0, 32, 0, 256, 16, 16, 9] {
+                    d.extend(x.to_le_bytes());
+                }
+                d.extend((0..256 * 16).map(|i| (i * 31 % 255) as u8));
+                if let Ok(f) = BitFont::from_bytes("nine wide", &d) {
+                    b.set_font(0, f);
+                }
+            }
             _ => {
                 b.set_font(255, synth_font("two five five", 16, 5));
                 b.set_font(300, synth_font("three hundred \u{fc}", 8, 7));
@@ -194,6 +210,18 @@ impl DSpec {
             }
         }
         b.layers = self.layers.iter().map(|l| l.build()).collect();
+        if self.fonts == 4 {
+            for l in b.layers.iter_mut() {
+                l.default_font_page = 5;
+                for line in l.lines.iter_mut() {
+                    for c in line.chars.iter_mut() {
+                        if c.is_visible() {
+                            c.attribute.set_font_page(5);
+                        }
+                    }
+                }
+            }
+        }
         b
     }
     fn uses_page_300(&self) -> bool {
@@ -201,7 +229,7 @@ impl DSpec {
     }
     fn json(&self) -> Value {
         json!({"size": [self.w, self.h], "buffer_type": self.buffer_type, "ice_mode": self.ice, "palette_mode": self.palette_mode, "font_mode": self.font_mode,
-               "palette": (["default 16", "1 colour", "17 colours", "300 colours", "23 colours with equal neighbours"][self.palette as usize]), "fonts": (["{0}", "{0,1}", "{0,255,300}", "{0: default font edited in place}"][self.fonts as usize]),
+               "palette": (["default 16", "1 colour", "17 colours", "300 colours", "23 colours with equal neighbours"][self.palette as usize]), "fonts": (["{0}", "{0,1}", "{0,255,300}", "{0: default font edited in place}", "{5} only, every cell on page 5", "{0: a font declaring 9 pixels width}"][self.fonts as usize]),
                "sauce": (["none", "plain", "with comments"][self.sauce as usize]), "layers": self.layers.iter().map(|l| l.json()).collect::<Vec<_>>()})
     }
 }
@@ -295,8 +323,8 @@ fn compare(a: &Buffer, b: &Buffer) -> Option<(String, Value)> {
                 if c.is_visible() != d.is_visible() {
                     return Some(("cell-visibility".into(), json!({"layer": i, "x": xx, "y": yy, "saved_visible": c.is_visible()})));
                 }
-                if c.is_visible() && (c.ch != d.ch || c.attribute.get_foreground() != d.attribute.get_foreground() || c.attribute.get_background() != d.attribute.get_background() || c.attribute.attr != d.attribute.attr || c.get_font_page() != d.get_font_page()) {
-                    let k = if c.ch != d.ch { "char" } else if c.attribute.attr != d.attribute.attr { "attribute-flags" } else if c.get_font_page() != d.get_font_page() { "font-page" } else { "colour" };
+                if c.is_visible() && (c.ch != d.ch || c.attribute.get_foreground() != d.attribute.get_foreground() || c.attribute.get_background() != d.attribute.get_background() || (c.attribute.attr & !icy_engine::attribute::SHORT_DATA) != (d.attribute.attr & !icy_engine::attribute::SHORT_DATA) || c.get_font_page() != d.get_font_page()) {
+                    let k = if c.ch != d.ch { "char" } else if (c.attribute.attr & !icy_engine::attribute::SHORT_DATA) != (d.attribute.attr & !icy_engine::attribute::SHORT_DATA) { "attribute-flags" } else if c.get_font_page() != d.get_font_page() { "font-page" } else { "colour" };
                     return Some((format!("cell-{k}"), json!({"layer": i, "x": xx, "y": yy, "saved": format!("{c}"), "loaded": format!("{d}")})));
                 }
             }
@@ -409,7 +437,7 @@ fn dims() -> Vec<Dim> {
         Dim { name: "palette mode", n: 4, apply: |d, v| d.palette_mode = v as u8 },
         Dim { name: "font mode", n: 4, apply: |d, v| d.font_mode = v as u8 },
         Dim { name: "palette", n: 5, apply: |d, v| d.palette = v as u8 },
-        Dim { name: "fonts", n: 4, apply: |d, v| d.fonts = v as u8 },
+        Dim { name: "fonts", n: 6, apply: |d, v| d.fonts = v as u8 },
         Dim { name: "sauce", n: 3, apply: |d, v| d.sauce = v as u8 },
         Dim { name: "buffer size", n: 6, apply: |d, v| {
             let (w, h) = [(4, 3), (1, 1), (0, 0), (80, 25), (200, 120), (3, 200)][v];
@@ -626,6 +654,16 @@ impl Engine for Icy {
                 l.rows = (0..32u16).map(|y| (0..64u16).map(|x| CK::Attr((y * 64 + x) & 0x3FF, (y * 64 + x) >= 1024)).collect()).collect();
                 d.layers.push(l);
                 run_doc(&d, "attribute flags", ctx);
+                // bit 14 of the attribute word is the format's own record marker ("for loading & saving only"): a cell that carries it
+                // (long and short form) must not take the cells behind it along
+                let mut d = DSpec::base();
+                d.layers.truncate(1);
+                let mut l = LSpec::base();
+                l.w = 8;
+                l.h = 2;
+                l.rows = vec![vec![CK::Attr(0x4001, true), CK::Short, CK::LongChar(0x2588), CK::Attr(0x4000, false), CK::Short], vec![CK::Attr(0x4010, false), CK::Attr(0x4010, true), CK::LongColour]];
+                d.layers.push(l);
+                run_doc(&d, "attribute word with the record marker bit", ctx);
             }
             Job::Chunk(i) => {
                 let (what, chunks) = &self.c10[*i];
